@@ -750,7 +750,8 @@ pub fn spec_for(prop: &str) -> Option<ConcSpec> {
         "C03" => ConcSpec {
             prop: "C03",
             own_tags: &["C03", "PANIC", "C01"],
-            rule: "same executions as C01 (callers are well-behaved by construction: a thread frees only blocks it holds, or parts of them). Oracle: no call panics, every free of a held block returns Ok, every successful allocation satisfies the C01 predicate. Non-trivial = context switch strictly inside a call AND overlapping calls on the same tree; distinct by (program, schedule) hash.",
+            opts: ConcOpts { epilogue: true, ..Default::default() },
+            rule: "same executions as C01 (callers are well-behaved by construction: a thread frees only blocks it holds, or parts of them), each followed by a sequential epilogue of the same well-behaved history (drain, free every block still held, drain). Oracle: no call panics, every free of a held block returns Ok, every successful allocation satisfies the C01 predicate. Non-trivial = context switch strictly inside a call AND overlapping calls on the same tree; distinct by (program, schedule) hash.",
             ..base
         },
         "C04c" | "C04" => ConcSpec {
